@@ -8,13 +8,14 @@ Open Scope N_scope.
 Record rctx := {
   c_reqID : N;                        (* 0 = none *)
   c_reqMsg : option (N * bytes);      (* (id in its header, body): transmitted request awaiting its reply *)
-  c_repMsg : option bytes;
+  c_repMsg : option (N * bytes);      (* (id it was matched with, payload) *)
   c_sendMsg : option (N * (N * bytes)); (* (thread of the SendMsg call, (id in its header, body)): waiting to be scheduled *)
   c_lastPipe : option N;
   c_queued : bool; c_closed : bool; c_recvWait : bool;
   c_resend : N; c_sendExp : N; c_recvExp : N;        (* milliseconds; 0 = none *)
   c_best : bool; c_fnp : bool;
   c_resendTimer : option N; c_sendTimer : option N; c_recvTimer : option N;   (* ids into `timers` *)
+  c_last : N;                         (* ghost: id of the most recent accepted Send on this context *)
 }.
 
 Inductive tkind := TkResend (id : N) | TkSend (t : N) | TkRecv (t : N) (id : N).
@@ -41,6 +42,8 @@ Record rstate := {
   out : list obs;                     (* observations of the current step, newest first *)
   ambig : bool;
   woken : list N;                     (* contexts whose condition variable was broadcast in this step *)
+  glog : list (N * N * N * N * N * bytes);  (* ghost: replies handed out: (call, context, matched id, id the call waited for, context's latest Send, payload) *)
+  dlog : list (N * bytes);            (* ghost: replies that matched a registered request: (id, payload) *)
 }.
 
 (* ---- association helpers (insertion order preserved) ---- *)
@@ -58,71 +61,84 @@ Definition ctx0 (resend : N) : rctx :=
   {| c_reqID := 0; c_reqMsg := None; c_repMsg := None; c_sendMsg := None; c_lastPipe := None;
      c_queued := false; c_closed := false; c_recvWait := false;
      c_resend := resend; c_sendExp := 0; c_recvExp := 0; c_best := false; c_fnp := false;
-     c_resendTimer := None; c_sendTimer := None; c_recvTimer := None |}.
+     c_resendTimer := None; c_sendTimer := None; c_recvTimer := None; c_last := 0 |}.
 
 Definition init : rstate :=
   {| ctxs := [(0, ctx0 60000)]; ctxByID := []; sendQ := []; readyQ := []; pipes := []; sclosed := false;
-     nsend := 0; threads := []; timers := []; ntimer := 0; now := 0; out := []; ambig := false; woken := [] |}.
+     nsend := 0; threads := []; timers := []; ntimer := 0; now := 0; out := []; ambig := false; woken := []; glog := []; dlog := [] |}.
 
 (* ---- record updates ---- *)
 Definition upd_ctxs (s : rstate) (f : list (N * rctx)) : rstate :=
   {| ctxs := f; ctxByID := ctxByID s; sendQ := sendQ s; readyQ := readyQ s; pipes := pipes s; sclosed := sclosed s;
-     nsend := nsend s; threads := threads s; timers := timers s; ntimer := ntimer s; now := now s; out := out s; ambig := ambig s; woken := woken s |}.
+     nsend := nsend s; threads := threads s; timers := timers s; ntimer := ntimer s; now := now s; out := out s; ambig := ambig s; woken := woken s; glog := glog s; dlog := dlog s |}.
 Definition set_ctx (s : rstate) (c : N) (x : rctx) : rstate := upd_ctxs s (aset c x (ctxs s)).
 Definition upd_byid (s : rstate) (m : list (N * N)) : rstate :=
   {| ctxs := ctxs s; ctxByID := m; sendQ := sendQ s; readyQ := readyQ s; pipes := pipes s; sclosed := sclosed s;
-     nsend := nsend s; threads := threads s; timers := timers s; ntimer := ntimer s; now := now s; out := out s; ambig := ambig s; woken := woken s |}.
+     nsend := nsend s; threads := threads s; timers := timers s; ntimer := ntimer s; now := now s; out := out s; ambig := ambig s; woken := woken s; glog := glog s; dlog := dlog s |}.
 Definition upd_sendQ (s : rstate) (q : list N) : rstate :=
   {| ctxs := ctxs s; ctxByID := ctxByID s; sendQ := q; readyQ := readyQ s; pipes := pipes s; sclosed := sclosed s;
-     nsend := nsend s; threads := threads s; timers := timers s; ntimer := ntimer s; now := now s; out := out s; ambig := ambig s; woken := woken s |}.
+     nsend := nsend s; threads := threads s; timers := timers s; ntimer := ntimer s; now := now s; out := out s; ambig := ambig s; woken := woken s; glog := glog s; dlog := dlog s |}.
 Definition upd_readyQ (s : rstate) (q : list N) : rstate :=
   {| ctxs := ctxs s; ctxByID := ctxByID s; sendQ := sendQ s; readyQ := q; pipes := pipes s; sclosed := sclosed s;
-     nsend := nsend s; threads := threads s; timers := timers s; ntimer := ntimer s; now := now s; out := out s; ambig := ambig s; woken := woken s |}.
+     nsend := nsend s; threads := threads s; timers := timers s; ntimer := ntimer s; now := now s; out := out s; ambig := ambig s; woken := woken s; glog := glog s; dlog := dlog s |}.
 Definition upd_pipes (s : rstate) (p : list rpipe) : rstate :=
   {| ctxs := ctxs s; ctxByID := ctxByID s; sendQ := sendQ s; readyQ := readyQ s; pipes := p; sclosed := sclosed s;
-     nsend := nsend s; threads := threads s; timers := timers s; ntimer := ntimer s; now := now s; out := out s; ambig := ambig s; woken := woken s |}.
+     nsend := nsend s; threads := threads s; timers := timers s; ntimer := ntimer s; now := now s; out := out s; ambig := ambig s; woken := woken s; glog := glog s; dlog := dlog s |}.
 Definition upd_threads (s : rstate) (t : list thread) : rstate :=
   {| ctxs := ctxs s; ctxByID := ctxByID s; sendQ := sendQ s; readyQ := readyQ s; pipes := pipes s; sclosed := sclosed s;
-     nsend := nsend s; threads := t; timers := timers s; ntimer := ntimer s; now := now s; out := out s; ambig := ambig s; woken := woken s |}.
+     nsend := nsend s; threads := t; timers := timers s; ntimer := ntimer s; now := now s; out := out s; ambig := ambig s; woken := woken s; glog := glog s; dlog := dlog s |}.
 Definition upd_timers (s : rstate) (t : list timer) (n : N) : rstate :=
   {| ctxs := ctxs s; ctxByID := ctxByID s; sendQ := sendQ s; readyQ := readyQ s; pipes := pipes s; sclosed := sclosed s;
-     nsend := nsend s; threads := threads s; timers := t; ntimer := n; now := now s; out := out s; ambig := ambig s; woken := woken s |}.
+     nsend := nsend s; threads := threads s; timers := t; ntimer := n; now := now s; out := out s; ambig := ambig s; woken := woken s; glog := glog s; dlog := dlog s |}.
 Definition emit (s : rstate) (o : obs) : rstate :=
   {| ctxs := ctxs s; ctxByID := ctxByID s; sendQ := sendQ s; readyQ := readyQ s; pipes := pipes s; sclosed := sclosed s;
-     nsend := nsend s; threads := threads s; timers := timers s; ntimer := ntimer s; now := now s; out := o :: out s; ambig := ambig s; woken := woken s |}.
+     nsend := nsend s; threads := threads s; timers := timers s; ntimer := ntimer s; now := now s; out := o :: out s; ambig := ambig s; woken := woken s; glog := glog s; dlog := dlog s |}.
 Definition set_misc (s : rstate) (closed : bool) (ns nw : N) (amb : bool) : rstate :=
   {| ctxs := ctxs s; ctxByID := ctxByID s; sendQ := sendQ s; readyQ := readyQ s; pipes := pipes s; sclosed := closed;
-     nsend := ns; threads := threads s; timers := timers s; ntimer := ntimer s; now := nw; out := out s; ambig := amb; woken := woken s |}.
+     nsend := ns; threads := threads s; timers := timers s; ntimer := ntimer s; now := nw; out := out s; ambig := amb; woken := woken s; glog := glog s; dlog := dlog s |}.
 Definition wake (s : rstate) (c : N) : rstate :=
   {| ctxs := ctxs s; ctxByID := ctxByID s; sendQ := sendQ s; readyQ := readyQ s; pipes := pipes s; sclosed := sclosed s;
      nsend := nsend s; threads := threads s; timers := timers s; ntimer := ntimer s; now := now s; out := out s; ambig := ambig s;
-     woken := c :: woken s |}.
+     woken := c :: woken s; glog := glog s; dlog := dlog s |}.
 (* a call that has just reached its wait loop evaluates the condition once without being signalled *)
 Definition fresh_key (t : N) : N := 2 ^ 40 + t.
+Definition log_reply (s : rstate) (e : N * N * N * N * N * bytes) : rstate :=
+  {| ctxs := ctxs s; ctxByID := ctxByID s; sendQ := sendQ s; readyQ := readyQ s; pipes := pipes s; sclosed := sclosed s;
+     nsend := nsend s; threads := threads s; timers := timers s; ntimer := ntimer s; now := now s; out := out s; ambig := ambig s;
+     woken := woken s; glog := e :: glog s; dlog := dlog s |}.
+Definition log_match (s : rstate) (e : N * bytes) : rstate :=
+  {| ctxs := ctxs s; ctxByID := ctxByID s; sendQ := sendQ s; readyQ := readyQ s; pipes := pipes s; sclosed := sclosed s;
+     nsend := nsend s; threads := threads s; timers := timers s; ntimer := ntimer s; now := now s; out := out s; ambig := ambig s;
+     woken := woken s; glog := glog s; dlog := e :: dlog s |}.
 Definition clear_out (s : rstate) : rstate :=
   {| ctxs := ctxs s; ctxByID := ctxByID s; sendQ := sendQ s; readyQ := readyQ s; pipes := pipes s; sclosed := sclosed s;
-     nsend := nsend s; threads := threads s; timers := timers s; ntimer := ntimer s; now := now s; out := []; ambig := ambig s; woken := [] |}.
+     nsend := nsend s; threads := threads s; timers := timers s; ntimer := ntimer s; now := now s; out := []; ambig := ambig s; woken := []; glog := glog s; dlog := dlog s |}.
 
 Definition with_ctx (x : rctx) reqID reqMsg repMsg sendMsg lastPipe queued : rctx :=
   {| c_reqID := reqID; c_reqMsg := reqMsg; c_repMsg := repMsg; c_sendMsg := sendMsg; c_lastPipe := lastPipe;
      c_queued := queued; c_closed := c_closed x; c_recvWait := c_recvWait x;
      c_resend := c_resend x; c_sendExp := c_sendExp x; c_recvExp := c_recvExp x; c_best := c_best x; c_fnp := c_fnp x;
-     c_resendTimer := c_resendTimer x; c_sendTimer := c_sendTimer x; c_recvTimer := c_recvTimer x |}.
+     c_resendTimer := c_resendTimer x; c_sendTimer := c_sendTimer x; c_recvTimer := c_recvTimer x; c_last := c_last x |}.
 Definition with_flags (x : rctx) closed recvWait : rctx :=
   {| c_reqID := c_reqID x; c_reqMsg := c_reqMsg x; c_repMsg := c_repMsg x; c_sendMsg := c_sendMsg x; c_lastPipe := c_lastPipe x;
      c_queued := c_queued x; c_closed := closed; c_recvWait := recvWait;
      c_resend := c_resend x; c_sendExp := c_sendExp x; c_recvExp := c_recvExp x; c_best := c_best x; c_fnp := c_fnp x;
-     c_resendTimer := c_resendTimer x; c_sendTimer := c_sendTimer x; c_recvTimer := c_recvTimer x |}.
+     c_resendTimer := c_resendTimer x; c_sendTimer := c_sendTimer x; c_recvTimer := c_recvTimer x; c_last := c_last x |}.
 Definition with_opts (x : rctx) resend sendExp recvExp best fnp : rctx :=
   {| c_reqID := c_reqID x; c_reqMsg := c_reqMsg x; c_repMsg := c_repMsg x; c_sendMsg := c_sendMsg x; c_lastPipe := c_lastPipe x;
      c_queued := c_queued x; c_closed := c_closed x; c_recvWait := c_recvWait x;
      c_resend := resend; c_sendExp := sendExp; c_recvExp := recvExp; c_best := best; c_fnp := fnp;
-     c_resendTimer := c_resendTimer x; c_sendTimer := c_sendTimer x; c_recvTimer := c_recvTimer x |}.
+     c_resendTimer := c_resendTimer x; c_sendTimer := c_sendTimer x; c_recvTimer := c_recvTimer x; c_last := c_last x |}.
+Definition with_last (x : rctx) (n : N) : rctx :=
+  {| c_reqID := c_reqID x; c_reqMsg := c_reqMsg x; c_repMsg := c_repMsg x; c_sendMsg := c_sendMsg x; c_lastPipe := c_lastPipe x;
+     c_queued := c_queued x; c_closed := c_closed x; c_recvWait := c_recvWait x;
+     c_resend := c_resend x; c_sendExp := c_sendExp x; c_recvExp := c_recvExp x; c_best := c_best x; c_fnp := c_fnp x;
+     c_resendTimer := c_resendTimer x; c_sendTimer := c_sendTimer x; c_recvTimer := c_recvTimer x; c_last := n |}.
 Definition with_timers (x : rctx) rt st rc : rctx :=
   {| c_reqID := c_reqID x; c_reqMsg := c_reqMsg x; c_repMsg := c_repMsg x; c_sendMsg := c_sendMsg x; c_lastPipe := c_lastPipe x;
      c_queued := c_queued x; c_closed := c_closed x; c_recvWait := c_recvWait x;
      c_resend := c_resend x; c_sendExp := c_sendExp x; c_recvExp := c_recvExp x; c_best := c_best x; c_fnp := c_fnp x;
-     c_resendTimer := rt; c_sendTimer := st; c_recvTimer := rc |}.
+     c_resendTimer := rt; c_sendTimer := st; c_recvTimer := rc; c_last := c_last x |}.
 
 (* ---- timers ---- *)
 Definition stop_timer (s : rstate) (o : option N) : rstate :=
@@ -164,6 +180,36 @@ Definition cancel (s : rstate) (c : N) : rstate :=
   end.
 
 (* ---- s.send(): while sendQ and readyQ are both non-empty ---- *)
+(* the context record after being scheduled on pipe p (the first transmission moves sendMsg to reqMsg) *)
+Definition sched_ctx (x : rctx) (p : N) : rctx :=
+  let x1 := match c_sendMsg x with
+            | Some (_, m) => with_ctx x (c_reqID x) (Some m) (c_repMsg x) None (c_lastPipe x) false
+            | None => with_ctx x (c_reqID x) (c_reqMsg x) (c_repMsg x) None (c_lastPipe x) false
+            end in
+  with_ctx x1 (c_reqID x1) (c_reqMsg x1) (c_repMsg x1) (c_sendMsg x1) (Some p) (c_queued x1).
+
+(* one iteration of the loop in s.send(): context c (record x) is handed to pipe p (record pp) *)
+Definition send_one (s : rstate) (c p : N) (x : rctx) (pp : rpipe) (sq rq : list N) : rstate :=
+  let s := upd_readyQ (upd_sendQ s sq) rq in
+  (* register the id on first transmission (c.cond.Broadcast) *)
+  let s := match c_sendMsg x with
+           | Some _ => wake (upd_byid s (aset (c_reqID x) c (ctxByID s))) c
+           | None => s end in
+  let x := sched_ctx x p in
+  let '(mid, body) := match c_reqMsg x with Some m => m | None => (0, []) end in
+  let '(s, x) :=
+    if 0 <? c_resend x then
+      let '(s, i) := arm s c (TkResend (c_reqID x)) (c_resend x) in
+      (s, with_timers x (Some i) (c_sendTimer x) (c_recvTimer x))
+    else (s, x) in
+  (* go p.sendCtx: the message is written to the pipe *)
+  let s := emit (set_ctx s c x) (OTx p (req_hdr mid) body) in
+  if pp_hold pp then
+    set_pipe s {| pp_id := p; pp_closed := pp_closed pp; pp_hold := true; pp_inflight := Some (mid, body) |}
+  else
+    (* completes at once: the pipe becomes ready again *)
+    upd_readyQ s (readyQ s ++ [p]).
+
 Fixpoint do_send (fuel : nat) (s : rstate) : rstate :=
   match fuel with
   | O => s
@@ -171,30 +217,7 @@ Fixpoint do_send (fuel : nat) (s : rstate) : rstate :=
     match sendQ s, readyQ s with
     | c :: sq, p :: rq =>
       match aget c (ctxs s), get_pipe s p with
-      | Some x, Some pp =>
-        let s := upd_readyQ (upd_sendQ s sq) rq in
-        (* move sendMsg to reqMsg and register the id on first transmission *)
-        let '(x, s) :=
-          match c_sendMsg x with
-          | Some (_, m) => (with_ctx x (c_reqID x) (Some m) (c_repMsg x) None (c_lastPipe x) false,
-                            wake (upd_byid s (aset (c_reqID x) c (ctxByID s))) c)
-          | None => (with_ctx x (c_reqID x) (c_reqMsg x) (c_repMsg x) None (c_lastPipe x) false, s)
-          end in
-        let '(mid, body) := match c_reqMsg x with Some m => m | None => (0, []) end in
-        let x := with_ctx x (c_reqID x) (c_reqMsg x) (c_repMsg x) (c_sendMsg x) (Some p) (c_queued x) in
-        let '(s, x) :=
-          if 0 <? c_resend x then
-            let '(s, i) := arm s c (TkResend (c_reqID x)) (c_resend x) in
-            (s, with_timers x (Some i) (c_sendTimer x) (c_recvTimer x))
-          else (s, x) in
-        let s := set_ctx s c x in
-        (* go p.sendCtx: the message is written to the pipe *)
-        let s := emit s (OTx p (req_hdr mid) body) in
-        if pp_hold pp then
-          do_send f (set_pipe s {| pp_id := p; pp_closed := pp_closed pp; pp_hold := true; pp_inflight := Some (mid, body) |})
-        else
-          (* completes at once: the pipe becomes ready again *)
-          do_send f (upd_readyQ s (readyQ s ++ [p]))
+      | Some x, Some pp => do_send f (send_one s c p x pp sq rq)
       | _, _ => s
       end
     | _, _ => s
@@ -254,28 +277,31 @@ Definition recv_finish (fixed : bool) (s : rstate) (t c id : N) (expired : bool)
               else with_flags (with_ctx x 0 (c_reqMsg x) None (c_sendMsg x) (c_lastPipe x) (c_queued x)) (c_closed x) false in
     let s := wake (set_ctx s c x') c in
     match m with
-    | Some b => emit s (ORet t (RMsg [] b))
+    | Some (i, b) => emit (log_reply s (t, c, i, id, c_last x, b)) (ORet t (RMsg [] b))
     | None => emit s (ORet t (RErr (if c_closed x then EClosed else if expired then ERecvTimeout
                                      else if c_fnp x && no_pipes s then ENoPeers else ECanceled)))
     end
   | None => s
   end.
 
+(* a blocked call stays blocked unless its condition variable was signalled (or it has just started) and its wait
+   condition is false *)
+Definition thread_waits (s : rstate) (th : thread) : bool :=
+  match th with
+  | TSend t c e => negb (existsb (N.eqb c) (woken s) || existsb (N.eqb (fresh_key t)) (woken s)) || send_waits s t c e
+  | TRecv t c id e => negb (existsb (N.eqb c) (woken s) || existsb (N.eqb (fresh_key t)) (woken s)) || recv_waits s c id
+  end.
+Fixpoint pick_thread (s : rstate) (pre post : list thread) : option (thread * list thread) :=
+  match post with
+  | [] => None
+  | th :: r => if thread_waits s th then pick_thread s (pre ++ [th]) r else Some (th, pre ++ r)
+  end.
+
 Fixpoint settle (fixed : bool) (fuel : nat) (s : rstate) : rstate :=
   match fuel with
   | O => s
   | S f =>
-    let fix pick (pre post : list thread) : option (thread * list thread) :=
-      match post with
-      | [] => None
-      | th :: r =>
-        let w := match th with
-                 | TSend t c e => negb (existsb (N.eqb c) (woken s) || existsb (N.eqb (fresh_key t)) (woken s)) || send_waits s t c e
-                 | TRecv t c id e => negb (existsb (N.eqb c) (woken s) || existsb (N.eqb (fresh_key t)) (woken s)) || recv_waits s c id
-                 end in
-        if w then pick (pre ++ [th]) r else Some (th, pre ++ r)
-      end in
-    match pick [] (threads s) with
+    match pick_thread s [] (threads s) with
     | None => s
     | Some (TSend t c e, rest) => settle fixed f (send_finish (upd_threads s rest) t c)
     | Some (TRecv t c id e, rest) => settle fixed f (recv_finish fixed (upd_threads s rest) t c id e)
@@ -358,7 +384,7 @@ Definition pipe_recv (s : rstate) (p : N) (body : bytes) : rstate :=
       | Some x =>
         let s := upd_byid s (adel id (ctxByID s)) in
         let s := stop_timer (stop_timer s (c_resendTimer x)) (c_recvTimer x) in
-        wake (set_ctx s c (with_timers (with_ctx x (c_reqID x) None (Some payload) (c_sendMsg x) (c_lastPipe x) (c_queued x))
+        wake (set_ctx (log_match s (id, payload)) c (with_timers (with_ctx x (c_reqID x) None (Some (id, payload)) (c_sendMsg x) (c_lastPipe x) (c_queued x))
                                        None (c_sendTimer x) None)) c
       | None => s
       end
@@ -419,7 +445,7 @@ Definition do_call (s : rstate) (t : N) (k : call) : rstate :=
         match aget c (ctxs s) with
         | None => s
         | Some x =>
-          let s := set_ctx s c (with_ctx x id (c_reqMsg x) (c_repMsg x) (Some (t, (id, body))) (c_lastPipe x) true) in
+          let s := set_ctx s c (with_last (with_ctx x id (c_reqMsg x) (c_repMsg x) (Some (t, (id, body))) (c_lastPipe x) true) id) in
           let s := upd_sendQ s (sendQ s ++ [c]) in
           if c_best x then emit (send_all s) (ORet t ROk)
           else
@@ -466,6 +492,8 @@ Definition do_call (s : rstate) (t : N) (k : call) : rstate :=
     end
   | COpenCtx c =>
     if sclosed s then emit s (ORet t (RErr EClosed))
+    else if (match aget c (ctxs s) with Some _ => true | None => false end)
+    then set_misc s (sclosed s) (nsend s) (now s) true     (* a context name is never reused by the harness *)
     else match aget 0 (ctxs s) with
          | Some d => emit (set_ctx s c (with_opts (ctx0 0) (c_resend d) (c_sendExp d) (c_recvExp d) (c_best d) (c_fnp d))) (ORet t ROk)
          | None => s
